@@ -502,6 +502,8 @@ def run_loop(ex, s, st, kind, itv):
                             if os.environ.get("PYVC_DEBUG_CAND") == nm:
                                 r, sv = check_sat(list(b_st.pc) + [Not(g)], 20000)
                                 print("   [cand %s] not preserved: %s" % (nm, r))
+                                from .smt import to_smt2
+                                open("/tmp/cand_%s_%d.smt2" % (nm, len(b_st.pc)), "w").write(to_smt2(list(b_st.pc) + [Not(g)]))
                                 if r == "sat":
                                     m = sv.model()
                                     print("    ", {d.name(): m[d] for d in m.decls() if d.arity() == 0 and not z3.is_array(m[d]) and "?" not in d.name()})
